@@ -45,6 +45,7 @@ src_st = st.fixed_dictionaries({
 })
 
 case_strategy = st.fixed_dictionaries({
+    "rep": skyimg.rep_strategy,      # how the image is stored (CD matrix, degenerate axes, BSCALE/BZERO)
     "proj": st.sampled_from(refs.ZWCS.PROJ),
     "crval": st.tuples(st.one_of(f(0, 360, exclude_max=True), st.sampled_from([0.001, 359.999])), st.one_of(f(-85, 85), f(60, 85))),
     "scale": f(2, 60), "rows": st.integers(48, 200), "cols": st.integers(48, 200),
@@ -230,7 +231,7 @@ def check_case(c):
             rng = np.random.default_rng(c["seed"])
             img = rng.normal(size=shape).astype(np.float32)
             path = os.path.join(d, "im.fits")
-            skyimg.write_fits(path, img, hdr, dtype=np.float32)
+            skyimg.write_fits(path, img, hdr, dtype=np.float32, rep=c.get("rep"))
             colmap = None
             if not cat:
                 res.label("empty-catalogue")
@@ -290,7 +291,7 @@ def check_case(c):
                 rng = np.random.default_rng(c["seed"])
                 img = rng.normal(size=shape).astype(np.float32)
                 path = os.path.join(d, "im.fits")
-                skyimg.write_fits(path, img, hdr, dtype=np.float32)
+                skyimg.write_fits(path, img, hdr, dtype=np.float32, rep=c.get("rep"))
                 save_catalog(os.path.join(d, "cat.csv"), cat)
                 colmap, cargv = renamed_catalogue(os.path.join(d, "cat_comp.csv"), os.path.join(d, "cat_in.csv"), c.get("rename_mask", 0))
                 outf = os.path.join(d, "masked.fits")
@@ -329,6 +330,7 @@ def check_case(c):
 
 # ------------------------------------------------------------------ closed loop
 loop_strategy = st.fixed_dictionaries({
+    "rep": skyimg.rep_strategy,      # how the image is stored (CD matrix, degenerate axes, BSCALE/BZERO)
     "proj": st.sampled_from(refs.ZWCS.PROJ),
     "crval": st.tuples(f(0, 360, exclude_max=True), f(-80, 80)),
     "scale": f(3, 30), "size": st.integers(96, 200),
@@ -374,7 +376,7 @@ def check_loop(c):
     d = workdir("c14l_")
     try:
         path = os.path.join(d, "im.fits")
-        skyimg.write_fits(path, img, hdr, dtype=np.float64)
+        skyimg.write_fits(path, img, hdr, dtype=np.float64, rep=c.get("rep"))
         comps = SourceFinder().find_sources_in_image(path, rms=rms, bkg=0.0, docov=c["docov"], cores=1)
         if len(comps) != len(sky):
             res.bad("loop-count", "%d isolated sources injected, %d components found" % (len(sky), len(comps)), docov=c["docov"])
